@@ -49,6 +49,7 @@ func rulePDF417Arith(c *Ctx) {
 		// the store of the recurrence
 		var st *ssa.Store
 		var finalSt *ssa.Store
+		var single []*ssa.Store // stores in a loop that is not nested
 		eachInstr(fn, func(b *ssa.BasicBlock, ins ssa.Instruction) {
 			s, ok := ins.(*ssa.Store)
 			if !ok {
@@ -59,11 +60,21 @@ func rulePDF417Arith(c *Ctx) {
 					if h.Idom() != nil && enclosingLoopHeader(h.Idom()) != nil {
 						st = s // nested in the data loop: the recurrence
 					} else {
-						finalSt = s
+						single = append(single, s)
 					}
 				}
 			}
 		})
+		// the last register may be written after the register loop (its formula has no neighbour term):
+		// a store in the data loop itself
+		var peeled *ssa.Store
+		for _, s := range single {
+			if st != nil && enclosingLoopHeader(s.Block()) == enclosingLoopHeader(enclosingLoopHeader(st.Block()).Idom()) {
+				peeled = s
+			} else {
+				finalSt = s
+			}
+		}
 		if st == nil || finalSt == nil {
 			c.Undecided(R, "pdf417.Compute/stores", fn.Pos(), "recurrence store / final complement store not found")
 			return
@@ -91,11 +102,28 @@ func rulePDF417Arith(c *Ctx) {
 			return
 		}
 		c.Check(R, "pdf417.Compute/order", st.Pos(), pEqual(first, pConst(0)) && pEqual(step, pConst(1)), "registers written in the order 0, 1, 2, ...", fmt.Sprintf("first %s, step %s", first, step))
-		c.expectCondC(R, "pdf417.Compute/all-registers", st.Pos(), while, MustRefCond("q <= k - 1"))
-		checkCases(c, R, "pdf417.Compute/recurrence", st.Pos(), n.valueCases(fn, inner.Succs[0], st.Val, 0), []edgeSpec{
-			{"(0 + 929 - (((data[v] + e[0])%929)*f[k - 1 - q])%929)%929", "q >= k - 1"},
-			{"(e[q + 1] + 929 - (((data[v] + e[0])%929)*f[k - 1 - q])%929)%929", "q < k - 1"}})
-		n.env = n.env[:len(n.env)-1]
+		if peeled == nil {
+			c.expectCondC(R, "pdf417.Compute/all-registers", st.Pos(), while, MustRefCond("q <= k - 1"))
+			checkCases(c, R, "pdf417.Compute/recurrence", st.Pos(), n.valueCases(fn, inner.Succs[0], st.Val, 0), []edgeSpec{
+				{"(0 + 929 - (((data[v] + e[0])%929)*f[k - 1 - q])%929)%929", "q >= k - 1"},
+				{"(e[q + 1] + 929 - (((data[v] + e[0])%929)*f[k - 1 - q])%929)%929", "q < k - 1"}})
+			n.env = n.env[:len(n.env)-1]
+		} else {
+			// registers 0 .. k-2 in the loop, register k-1 after it
+			c.expectCondC(R, "pdf417.Compute/all-registers", st.Pos(), while, MustRefCond("q < k - 1"))
+			checkCasesUnder(c, R, "pdf417.Compute/recurrence", st.Pos(), n.valueCases(fn, inner.Succs[0], st.Val, 0), []edgeSpec{
+				{"(e[q + 1] + 929 - (((data[v] + e[0])%929)*f[k - 1 - q])%929)%929", "q < k - 1"}}, MustRefCond("q < k - 1"))
+			n.env = n.env[:len(n.env)-1]
+			c.expectPoly(R, "pdf417.Compute/last-register", peeled.Pos(), n, peeled.Addr.(*ssa.IndexAddr).Index, "k - 1")
+			c.expectPoly(R, "pdf417.Compute/last-register-value", peeled.Pos(), n, peeled.Val, "(929 - (((data[v] + e[0])%929)*f[0])%929)%929")
+			after := inner.Dominates(peeled.Block()) && !inLoopBody(inner, peeled.Block())
+			reach := cFalse
+			if ex := loopExitBlock(inner); ex != nil && after {
+				reach = n.ReachCond(fn, ex, peeled.Block())
+			}
+			eq, _ := CondEquivalent(reach, cTrue)
+			c.Check(R, "pdf417.Compute/last-register-always", peeled.Pos(), after && eq, "written after the register loop for every codeword", reach.String())
+		}
 		// final complement
 		fh := enclosingLoopHeader(finalSt.Block())
 		if fidx, _, finit, ok := loopIndex(fh); ok && finit == 0 {
@@ -454,6 +482,42 @@ func ruleGFPolyArith(c *Ctx) {
 			// outer first in block order
 			n.Bind[idxs[0]], n.Bind[idxs[1]] = "i", "j"
 		}
+		// what is returned: the zero polynomial iff a factor is zero, otherwise the polynomial built from
+		// the product coefficients - or, for a constant factor, the other factor scaled by that constant
+		var mk *ssa.MakeSlice
+		eachInstr(fn, func(b *ssa.BasicBlock, ins ssa.Instruction) {
+			if m, ok := ins.(*ssa.MakeSlice); ok {
+				mk = m
+			}
+		})
+		zeroC := cFalse
+		nr := NewNormer(c.P)
+		nr.BindParams(fn, "gp", "other")
+		for _, nm := range []string{"utils.(*GFPoly).Zero", "utils.(*GFPoly).Degree", "utils.(*GFPoly).GetCoefficient", "utils.(*GaloisField).Zero"} {
+			nr.NoInline[nm] = true
+		}
+		for k, ret := range returnsOf(fn) {
+			v := nr.Norm(ret.Results[0]).String()
+			rc := nr.ReachCond(fn, nil, ret.Block())
+			key := fmt.Sprintf("utils.(*GFPoly).Multiply/return#%d", k+1)
+			switch {
+			case v == "call:utils.(*GaloisField).Zero(gp.gf)" || v == "call:utils.(*GaloisField).Zero(other.gf)":
+				zeroC = cOr(zeroC, rc)
+			case mk != nil && strings.HasPrefix(v, "call:utils.NewGFPoly("):
+				call, _ := ret.Results[0].(*ssa.Call)
+				c.Check(R, key, ret.Pos(), call != nil && len(call.Common().Args) == 2 && call.Common().Args[1] == ssa.Value(mk), "NewGFPoly(field, product)", v)
+			case v == "call:utils.(*GFPoly).MultByMonominal(other,0,call:utils.(*GFPoly).GetCoefficient(gp,0))":
+				imp, _, _ := CondRelation(rc, mustRefCondAtomsEq("call:utils.(*GFPoly).Degree(gp)", 0))
+				c.Check(R, key, ret.Pos(), imp, "other scaled by gp's constant term only when gp is a constant", rc.String())
+			case v == "call:utils.(*GFPoly).MultByMonominal(gp,0,call:utils.(*GFPoly).GetCoefficient(other,0))":
+				imp, _, _ := CondRelation(rc, mustRefCondAtomsEq("call:utils.(*GFPoly).Degree(other)", 0))
+				c.Check(R, key, ret.Pos(), imp, "gp scaled by other's constant term only when other is a constant", rc.String())
+			default:
+				c.Check(R, key, ret.Pos(), false, "zero polynomial, NewGFPoly(field, product), or a factor scaled by the other factor's constant term", v)
+			}
+		}
+		zg, zo := &Cond{Kind: CBool, Name: "call:utils.(*GFPoly).Zero(gp)"}, &Cond{Kind: CBool, Name: "call:utils.(*GFPoly).Zero(other)"}
+		c.expectCondC(R, "utils.(*GFPoly).Multiply/zero-iff", fn.Pos(), zeroC, cOr(zg, zo))
 		eachInstr(fn, func(b *ssa.BasicBlock, ins ssa.Instruction) {
 			if m, ok := ins.(*ssa.MakeSlice); ok {
 				c.expectPoly(R, "utils.(*GFPoly).Multiply/len", m.Pos(), n, m.Len, "len(gp.Coefficients) + len(other.Coefficients) - 1")
@@ -681,8 +745,12 @@ func loopExitsOnlyAtHeader(hdr *ssa.BasicBlock) bool {
 			}
 		}
 	}
+	exitOK := hdr
+	if rot, ok := rotatedLoop(hdr); ok {
+		exitOK = rot.latch // a bottom-tested loop is left from its latch
+	}
 	for b := range in {
-		if b == hdr {
+		if b == exitOK {
 			continue
 		}
 		for _, s := range b.Succs {
@@ -822,4 +890,9 @@ func gfAppendForm(c *Ctx, R string, n *Normer, fn *ssa.Function) {
 		}
 	}
 	c.Check(R, "utils.(*GFPoly).AddOrSubstract/result-len", elem.call.Pos(), okAcc, "one append per position onto the prefix (position = length so far = q)", fmt.Sprint(okAcc))
+}
+
+// mustRefCondAtomsEq: the condition atom == k for an atom that is not a Go expression.
+func mustRefCondAtomsEq(atom string, k int64) *Cond {
+	return cmpCond(token.EQL, pAtom(atom), pConst(k))
 }
